@@ -545,6 +545,7 @@ class Check:
 
     def gen_cases(self, tier):
         gen = load_generator(self.pid)
+        self.gen = gen
         rng = random.Random(self.seed * 1000003 + 17)
         cases = []
         corpus = sorted(glob.glob(os.path.join(ROOT, 'corpus', self.pid, '*.case')))
@@ -559,9 +560,20 @@ class Check:
         return cases, gen
 
     def run_both(self, cases):
-        impl = run_lines(self.implrun, [], cases, restart_on_timeout=True, tag='impl')
-        model = run_lines(self.modelrun, ['run'], cases, tag='model')
-        jl = [impl[i] + ' ' + cases[i] for i in range(len(cases))]
+        """Runs the cases through the implementation, the model and the judge.
+        Optional generator hooks (for properties whose model needs measurements taken by the
+        implementation run, e.g. elapsed times): `model_case(case, impl_out) -> case line fed to
+        the model and the judge` and `impl_observable(case, impl_out) -> the part of the
+        implementation output that is compared with the model output and judged`."""
+        gen = getattr(self, 'gen', None)
+        impl_raw = run_lines(self.implrun, [], cases, restart_on_timeout=True, tag='impl',
+                             env=getattr(gen, 'IMPL_ENV', None))
+        mc = getattr(gen, 'model_case', None)
+        io = getattr(gen, 'impl_observable', None)
+        mcases = [mc(cases[i], impl_raw[i]) for i in range(len(cases))] if mc else cases
+        impl = [io(cases[i], impl_raw[i]) for i in range(len(cases))] if io else impl_raw
+        model = run_lines(self.modelrun, ['run'], mcases, tag='model')
+        jl = [impl[i] + ' ' + mcases[i] for i in range(len(cases))]
         verdicts = run_lines(self.modelrun, ['judge'], jl, tag='judge')
         return impl, model, verdicts
 
@@ -737,6 +749,10 @@ def replay(pid, path):
     if not chk.phase_build():
         print('cannot build runners: %s' % chk.notes)
         return 2
+    try:
+        chk.gen = load_generator(pid)
+    except Exception:
+        pass
     if 'case' not in obj:
         print(json.dumps(obj, indent=1))
         print('this replay names a broken proof obligation / correspondence; re-run ./check %s' % pid)
